@@ -73,7 +73,7 @@ def run_pyvc(rep: Report, keys, native_limit=150):
         rep.extend(results)
         rep.function(meta["key"], meta["source"])
         for a in meta["assumed"]:
-            c = S.CONTRACTS[a]
+            c = S.VIEWS.get(a) or S.CONTRACTS[a]
             rep.assume("assumed contract %s: %s" % (a, c.note or "; ".join(cl.expr for cl in c.ensures)[:200]))
         for u in meta["used"]:
             if u.startswith("fun:"):
